@@ -222,6 +222,20 @@ def discharge(site, facts=None):
             if facts is not None and (ps is None or (ps.k == "const" and ps.v == 0)) and known_ge_at_callers(facts, body, lenc, end):
                 return "drained range bounded by this container's len() at every call site of this helper"
         return None
+    if k in ("slice:copy_from_slice", "slice:clone_from_slice") and len(site.operands) == 2:
+        d, src = site.operands
+        pd = peel(d, through_try=False)
+        n = 0
+        while pd is not None and n < 8 and ((pd.k == "call" and (pd.q or "").split("::")[-1] in ("deref_mut", "deref", "as_mut_slice", "as_mut") and pd.args)
+                                            or pd.k in ("ref", "deref")):
+            pd = peel(pd.args[0] if pd.k == "call" else pd.a, through_try=False)
+            n += 1
+        if pd is not None and pd.k == "call" and (pd.q or "").endswith("from_elem") and len(pd.args) == 2:
+            ln = peel(pd.args[1], through_try=False)
+            if ln.k == "call" and (ln.q or "").split("::")[-1] == "len" and ln.args and \
+                    same_expr(peel(ln.args[0], through_try=False), peel(src, through_try=False)):
+                return "destination was allocated as vec![_; src.len()] for this very source"
+        return None
     if k.startswith("unwrap:Result") and site.operands:
         p0 = peel(site.operands[0], through_try=False)
         if p0.k == "call" and (p0.q or "") in ("std::fmt::Write::write_fmt", "std::fmt::Write::write_str", "std::fmt::Write::write_char"):
@@ -405,6 +419,13 @@ def _taint(facts):
 def run(ctx):
     facts = ctx.facts("default")
     n = rule_scope(facts, ctx)
+    # "spins forever": the two structural no-spin rules of C09 - no Again without possible progress, no already-satisfied
+    # wait without certain progress (a block parked on a condition that already holds is called again at once, forever)
+    from . import c09, c19
+    c09.rule_r7(facts, ctx, rule_id="C15.S1")
+    c09.rule_r2(facts, c19._Retag(ctx, "C09.R2", "C15.S2"))
+    ctx.floor("C15.S1", 40, "WaitForStream verdicts with a constant amount (same floor as C09.R7)")
+    ctx.floor("C15.S2", 50, "Again return sites / work bodies (same floor as C09.R2)")
     from .. import controls
     controls.expect(ctx, "C15.D1", lambda f, c: rule_scope(f, c), "BadSource", "content - 1 unguarded")
     controls.expect(ctx, "C15.D2", lambda f, c: rule_scope(f, c), "BadSource", "unwrap on a content-dependent Option")
@@ -418,7 +439,8 @@ def run(ctx):
                 "assert/panic, unwrap/expect, indexing and slice operations) whose operands are content-tainted must be discharged by a "
                 "dominating guard (a >= b, b != 0, masked/bounded index, comparison with the indexed container's len()) or be listed, with a "
                 "reason, in rrlint/c15_audit.txt (one entry per function + kind + operand signature, never by line). A new tainted "
-                "unguarded site is reported until audited. Not decided: non-termination, panics inside dependencies, implicit flows, "
+                "unguarded site is reported until audited. 'Spins forever' is decided only in its structural form (S1/S2 = C09.R7/R2: no "
+                "verdict that makes the runner call work() again at once is reachable without progress). Not decided: other non-termination, panics inside dependencies, implicit flows, "
                 "overflow of 64-bit counters.")
     ctx.assume("64-bit counters and lengths do not overflow; dependencies (serde_json, tar, rustfft) do not panic; audited sites are safe "
                "for the stated reason")
